@@ -1474,6 +1474,89 @@ def run_asan(case):
 
 # --------------------------------------------------------------------------
 
+# --------------------------------------------------------------------------
+# seeded regimes: (a) hundreds of thousands of frames (products of counts beyond 2**32), (b) the one-feature-pair
+# presentation (two 1-D vectors) with many states in narrow element types (flat cell index beyond the dtype)
+
+@st.composite
+def many_frames_case(draw):
+    return {"T": draw(st.sampled_from([70000, 150000, 300000])), "F": draw(st.integers(1, 3)),
+            "S": draw(st.integers(2, 4)), "seed": draw(st.integers(0, 2 ** 31 - 1)),
+            "dtype": draw(st.sampled_from(["int8", "uint8", "int32", "int64"])), "threads": draw(st.sampled_from([1, 4, 16])),
+            "skew": draw(st.sampled_from([1.0, 3.0, 8.0])), "entry": draw(st.sampled_from(["joint_counts", "mi_matrix"]))}
+
+
+def run_many_frames(case):
+    rng = np.random.RandomState(case["seed"])            # seed drawn by Hypothesis
+    T, F, S = case["T"], case["F"], case["S"]
+    p = np.exp(-case["skew"] * np.arange(S) / S)
+    p /= p.sum()
+    base = rng.choice(S, size=T, p=p)
+    cols = []
+    for f in range(F):
+        noise = rng.choice(S, size=T)
+        keep = rng.rand(T) < (0.9 - 0.4 * f)
+        cols.append(np.where(keep, (base + f) % S, noise))
+    X0 = np.stack(cols, axis=1).astype(np.int64)
+    Xa = X0.astype(case["dtype"])
+    ref = ref_counts(X0, X0, S, S)
+    want = ref_mi(ref)
+    with warnings.catch_warnings():
+        warnings.simplefilter("ignore")
+        with omp(case["threads"]):
+            if case["entry"] == "joint_counts":
+                jc = mutual_info.joint_counts(Xa, Xa, S, S)
+                require(np.array_equal(np.asarray(jc).astype(np.int64), ref), "joint counts of a long trajectory are not exact")
+                got = mutual_info.mutual_information(jc)
+            else:
+                got = mutual_info.mi_matrix([Xa], [Xa], S, S, normalize=False)
+    got = np.asarray(got, dtype=float)
+    require(got.shape == want.shape and close(got, want, ATOL_MI), "mutual information of a long trajectory differs from the "
+            "reference MI of its exact counts", T=T, got=got.tolist(), want=want.tolist())
+    require(bool(np.all(got >= -ATOL_MI)), "negative mutual information on a long trajectory", got=got.tolist())
+    big = int(ref.max()) * T >= 2 ** 32
+    return Info(big, ["many_T=%d" % T, "count_times_T_beyond_2^32=%s" % big, "many_entry=" + case["entry"]],
+                key=[T, F, S, case["seed"], case["dtype"], case["entry"], case["skew"]])
+
+
+@st.composite
+def vec_case(draw):
+    return {"T": draw(st.integers(50, 3000)), "nx": draw(st.integers(2, 40)), "ny": draw(st.integers(2, 40)),
+            "dx": draw(st.sampled_from(INT_DTYPES)), "dy": draw(st.sampled_from(INT_DTYPES)),
+            "seed": draw(st.integers(0, 2 ** 31 - 1)), "threads": draw(st.sampled_from([1, 3, 16])),
+            "strided": draw(st.booleans()), "decl": draw(st.sampled_from(["positional", "keyword"]))}
+
+
+def run_vec(case):
+    rng = np.random.RandomState(case["seed"])            # seed drawn by Hypothesis
+    T = case["T"]
+    nx = min(case["nx"], int(np.iinfo(case["dx"]).max))
+    ny = min(case["ny"], int(np.iinfo(case["dy"]).max))
+    x0 = rng.randint(0, nx, size=T)
+    y0 = (x0 * 7 + rng.randint(0, ny, size=T) * (rng.rand(T) < 0.5)) % ny
+    x0[0], y0[0] = nx - 1, ny - 1                         # the top cell is occupied
+    if case["strided"]:
+        bx = np.zeros(2 * T, dtype=case["dx"]); x = bx[::2]; x[...] = x0
+        by = np.zeros(2 * T, dtype=case["dy"]); y = by[1::2]; y[...] = y0
+    else:
+        x, y = x0.astype(case["dx"]), y0.astype(case["dy"])
+    ref = ref_counts(x0.reshape(-1, 1), y0.reshape(-1, 1), nx, ny)
+    with warnings.catch_warnings():
+        warnings.simplefilter("ignore")
+        with omp(case["threads"]):
+            jc = mutual_info.joint_counts(x, y, nx, ny) if case["decl"] == "positional" else \
+                mutual_info.joint_counts(x, y, n_x=nx, n_y=ny)
+    jc = np.asarray(jc)
+    require(jc.shape == (1, 1, nx, ny), "joint counts of two 1-D vectors do not have shape (1, 1, n_x, n_y)", got=jc.shape)
+    bad = np.argwhere(jc.astype(np.int64) != ref)
+    require(len(bad) == 0, "joint counts of two 1-D vectors differ from the literal count", n_bad_cells=len(bad),
+            first=bad[:1].tolist(), got=int(jc[tuple(bad[0])]) if len(bad) else None,
+            want=int(ref[tuple(bad[0])]) if len(bad) else None, dx=case["dx"], dy=case["dy"], nx=nx, ny=ny)
+    narrow = (nx * ny > int(np.iinfo(case["dx"]).max)) or (nx * ny > int(np.iinfo(case["dy"]).max))
+    return Info(narrow, ["vec_dx=" + case["dx"], "vec_dy=" + case["dy"], "cells_exceed_dtype=%s" % narrow],
+                key=[T, nx, ny, case["dx"], case["dy"], case["seed"], case["strided"]])
+
+
 CLAUSES = [
     Clause("counts_exact", pair_case(), run_counts, quick=720, thorough=9000, exhaustive=exhaustive_counts,
            doc="joint-count tables hold the exact number of frames, for every dtype, layout, thread count"),
@@ -1482,6 +1565,10 @@ CLAUSES = [
            doc="same table for every layout and 1..16 threads, up to 20 features on the parallel axis, repeated"),
     Clause("counts_threads_long", threads_case(long_T=40000), run_threads, quick=12, thorough=240,
            doc="race search: 10k-40k frames over 2-3 states, several thread counts, repeated"),
+    Clause("mi_many_frames", many_frames_case(), run_many_frames, quick=16, thorough=200,
+           doc="7e4..3e5 frames: exact counts and MI == reference (count products beyond 2**32)"),
+    Clause("counts_1d_vectors_many_states", vec_case(), run_vec, quick=300, thorough=5000,
+           doc="joint_counts(x, y) on two 1-D vectors, 2..40 states each, every integer dtype"),
     Clause("mi_value", pair_case(), run_mi_value, quick=400, thorough=6000,
            doc="mutual_information(joint counts) equals the reference MI"),
     Clause("mi_value_long", pair_case(max_T=2000), run_mi_value, quick=0, thorough=800),
